@@ -309,6 +309,10 @@ def check(model, rep):
         rep.ob('R18.5', fi, 'x^2 + y^2 + z^2 == 1', xyz is not None and xyz == Poly.const(1),
                'sample norm squared is %s' % (xyz if xyz is not None else 'not recognised'))
 
+    from .c02 import closure_obligations
+    n = closure_obligations(model, rep, 'R18.7', [f for f in model.funcs_in(FSR) + model.funcs_in(HELP) if f.outer is None],
+                            'the geometric helpers (exp / log / hat / vee / adjoint / AngleMod-free primitives)')
+    rep.floor('R18.7', 'shared primitives under the helpers', len(n), 8)
     # ---------------------------------------------------------------- R18.6
     rep.rule('R18.6', 'chainJacobian = JacobianSpace recurrence with the same index offsets')
     cj = F(FSR, 'chainJacobian')
